@@ -584,23 +584,26 @@ theorem settle_quiet (r : R) : Quiet r (settle r) := by
     quiet_fields
   · exact Quiet.refl r
 
+/-- the frames of a header block (HEADERS, CONTINUATION) move no ledger -/
+theorem emits_block_quiet (r : R) (os : List Out) (h : ∀ o ∈ os, o.isBlock = true) : Quiet r (r.emits os) := by
+  rw [emits_eq_foldl]
+  induction os generalizing r with
+  | nil => exact Quiet.refl r
+  | cons o os ih =>
+    have ho := h o List.mem_cons_self
+    have h1 : Quiet r (r.emit o) := by
+      cases o <;> first | exact emit_quiet r _ rfl rfl rfl | (simp [Out.isBlock] at ho)
+    exact h1.trans (ih (r.emit o) fun x hx => h x (List.mem_cons_of_mem _ hx))
+
 theorem responseHeaders_quiet (r : R) (st : Strm) (resp : Resp) (hb : Bool) : Quiet r (responseHeaders r st resp hb) := by
   unfold responseHeaders
   simp only []
   split
-  · quiet_mk
-    case sc => simp [Out.dataLen]
-    case ss => intro sid; simp [Out.dataOn]
-    case cr => simp [Out.credit]
-    case ga => simp
-    case dz => dz_tac
+  · refine Quiet.trans ?_ (emits_block_quiet _ _ (blockOuts_isBlock _ _ _ _ _))
+    quiet_mk
     quiet_fields
-  · quiet_mk
-    case sc => simp [Out.dataLen]
-    case ss => intro sid; simp [Out.dataOn]
-    case cr => simp [Out.credit]
-    case ga => simp
-    case dz => dz_tac
+  · refine Quiet.trans ?_ (emits_block_quiet _ _ (blockOuts_isBlock _ _ _ _ _))
+    quiet_mk
     quiet_fields
 
 /-! ### `refill` -/
